@@ -211,6 +211,14 @@ def run(case):
         if k == "call":
             sup = mk_sup(tb, case["sup"])
             obs = [tb.us(x) for x in w(sup, align_last=case["align"])]
+            if tb.prec is None:
+                # an open-ended support segment: the positions start + k * step are served lazily, for ever
+                import itertools
+                from pyannote.core import Segment as _Seg
+                a0 = t(case["start"] + 3 * case["step"])
+                first = list(itertools.islice(w(_Seg(a0, float("inf")), align_last=False), 5))
+                want = [(a0 + k_ * kw["step"], a0 + k_ * kw["step"] + kw["duration"]) for k_ in range(5)]
+                assert [(x.start, x.end) for x in first] == want, "window(Segment(a, inf)) starts with %r, expected %r" % (first, want)
             # the positions depend on the support and on (duration, step) only: not on the window's own start / end
             bounds = [v for x in ([sup] if not hasattr(sup, "extent") else list(sup)) for v in (x.start, x.end)]
             if bounds:
